@@ -362,6 +362,9 @@ def cases_model(tier):
     else:
         triples = [(i, (i+a) % n, (i+b) % n) for i in range(n)
                    for a, b in ((3, 7), (1, 2), (5, 10), (0, 0))]
+    # grids that differ in exactly one direction only (same shape, same
+    # origin, other widths): a shortcut for 'equal' grids must not fire
+    triples += [(0, 0, 3), (0, 3, 0), (3, 0, 0), (0, 0, 0)]
     out = []
     for tr in triples:
         for case_ in zoo.CASES:
@@ -393,7 +396,9 @@ def case_model(c):
     geo = {k: 10.0**volavg.apply_3d(on, nn_, np.log10(v))
            for k, v in {**sig, **extra}.items()}
     ari = {k: volavg.apply_3d(on, nn_, v) for k, v in extra.items()}
-    same = bool(gold == gnew)
+    # sameness decided from the node coordinates (not by emg3d's __eq__)
+    same = all(len(a_) == len(b_) and np.array_equal(a_, b_)
+               for a_, b_ in zip(on, nn_))
     modes = set()
 
     def bad(cls, what, obs=None, exp=None):
@@ -418,8 +423,11 @@ def case_model(c):
                 if new is not model:
                     bad('identical-grid-does-not-return-model', mp)
                 continue
+            gn2 = grid_nodes(new.grid)
             if (new.map.name != mp or new.case != case_ or
-                    tuple(new.shape) != sn or not new.grid == gnew):
+                    tuple(new.shape) != sn or not all(
+                        len(a_) == len(b_) and np.allclose(a_, b_, rtol=1e-12)
+                        for a_, b_ in zip(gn2, nn_))):
                 bad('interpolated-model-has-wrong-structure',
                     f'{mp}/{case_}: {new!r}')
                 continue
@@ -456,6 +464,27 @@ def case_model(c):
                     bad('interpolated-mu-eps-is-no-volume-average',
                         f'{mp}: {k} is neither the arithmetic ({ea:.2e}) nor '
                         f'the geometric ({eg:.2e}) volume average')
+            # the documented defaults (method, log, extrapolate) can be
+            # overridden: explicit linear mode for a linear mapping gives the
+            # arithmetic volume average of the stored property
+            if _lin(mp) and not same:
+                try:
+                    with np.errstate(all='ignore'):
+                        lin = model.interpolate_to_grid(gnew, log=False)
+                except Exception as e:  # noqa
+                    bad('interpolate-to-grid-raises',
+                        f'{mp}/{case_} log=False: {type(e).__name__}: {e}')
+                    continue
+                for k, v in keep.items():
+                    want = volavg.apply_3d(on, nn_, v)
+                    got = getattr(lin, k)
+                    e = np.abs(got/want - 1.0).max()
+                    compared += got.size
+                    if not e <= 1e-12:
+                        bad('explicit-linear-mode-not-honoured',
+                            f'{mp}/{case_}: interpolate_to_grid(grid, '
+                            f'log=False): {k} differs from the arithmetic '
+                            f'volume average by {e:.2e} (relative)')
     return {'viol': viol, 'compared': compared, 'transitions': 6,
             'nontrivial': not same,
             'outcome': (case_, bool(c['mu_r']), bool(c['eps_r']), same,
